@@ -167,22 +167,25 @@ def viewFromJson (j : Json) : Except String ViewCfg := do
 def bytesAsNats (j : Json) (k : String) : Except String (List Nat) := do
   return (← getBytes j k).map (·.toNat)
 
+/-- a `DataStore` method call `{op, sid?, key?, value?}` (also used by `conc.store`, C19) -/
+def storeOpFromJson (j : Json) : Except String StoreOp := do
+  match ← getStr j "op" with
+  | "set_value" => pure (.setValue (← getCps j "sid") (← getCps j "key") (← valFromJson (← getField j "value")))
+  | "delete_value" => pure (.deleteValue (← getCps j "sid") (← getCps j "key"))
+  | "delete_data" => pure (.deleteData (← getCps j "sid"))
+  | "get_value" => pure (.getValue (← getCps j "sid") (← getCps j "key"))
+  | "get_data" => pure (.getData (← getCps j "sid"))
+  | "find_systems" => pure (.findSystems (← getCps j "key") (← valFromJson (← getField j "value")))
+  | "list_systems" => pure .listSystems
+  | o => throw s!"bad store op {o}"
+
 def stepFromJson (views : List (String × ViewCfg)) (j : Json) : Except String Step := do
   let vn ← getStr j "view"
   let op ← getStr j "op"
   match views.lookup vn with
   | none => throw s!"unknown view {vn}"
   | some (.store strict) =>
-    let sop : StoreOp ← match op with
-      | "set_value" => pure (.setValue (← getCps j "sid") (← getCps j "key") (← valFromJson (← getField j "value")))
-      | "delete_value" => pure (.deleteValue (← getCps j "sid") (← getCps j "key"))
-      | "delete_data" => pure (.deleteData (← getCps j "sid"))
-      | "get_value" => pure (.getValue (← getCps j "sid") (← getCps j "key"))
-      | "get_data" => pure (.getData (← getCps j "sid"))
-      | "find_systems" => pure (.findSystems (← getCps j "key") (← valFromJson (← getField j "value")))
-      | "list_systems" => pure .listSystems
-      | o => throw s!"bad store op {o}"
-    return .store strict sop
+    return .store strict (← storeOpFromJson j)
   | some (.source cfg) =>
     match op with
     | "get_data" => return .source cfg (.getData (← getCps j "sid"))
